@@ -65,8 +65,11 @@ def label_of(ob, proof):
 
 
 def write_evidence(uid, ev):
-    os.makedirs(os.path.join(VERIF, 'evidence'), exist_ok=True)
-    path = os.path.join(VERIF, 'evidence', uid + '.json')
+    # VERIF_EVIDENCE_DIR: development runs against a scratch copy of the repository (bin/trypatch) must not overwrite the
+    # evidence of the registered checks, which has to come from /repo itself
+    edir = os.environ.get('VERIF_EVIDENCE_DIR') or os.path.join(VERIF, 'evidence')
+    os.makedirs(edir, exist_ok=True)
+    path = os.path.join(edir, uid + '.json')
     with open(path, 'w') as f:
         json.dump(ev, f, indent=1)
     return path
@@ -264,9 +267,10 @@ def check(uid, tier, seed=0, only=None, keep=False):
 
 
 def make_replay(uid, um, unit, p, r, o, lab, work):
-    os.makedirs(os.path.join(VERIF, 'replays', uid), exist_ok=True)
+    rdir = os.path.join(os.environ.get('VERIF_REPLAY_DIR') or os.path.join(VERIF, 'replays'), uid)
+    os.makedirs(rdir, exist_ok=True)
     h = hashlib.sha256(('%s/%s/%s' % (uid, p.id, lab)).encode()).hexdigest()[:10]
-    path = os.path.join(VERIF, 'replays', uid, '%s-%s.json' % (re.sub(r'\W+', '_', lab)[:60], h))
+    path = os.path.join(rdir, '%s-%s.json' % (re.sub(r'\W+', '_', lab)[:60], h))
     fn = next((f for f in unit.get('functions', []) if f['cname'] == (p.enforce or '')), None)
     rp = {'property': uid, 'obligation': '%s/%s/%s' % (uid, p.enforce or p.entry, lab), 'cbmc_property': o['name'], 'description': o.get('description'),
           'proof': p.id, 'function': fn, 'checker_cmd': p.checker_cmd(), 'verifier_output': {'status': o['status'], 'trace_tail': (o.get('trace') or [])[-60:]},
